@@ -129,6 +129,9 @@ class FnTranslator:
         self.spec = spec
         self.domain = domain
         self.ops = OPS[domain]
+        if domain == "Q" and spec.get("q_exp"):
+            # executable twin may use another rational exp (e.g. Base.QExpFast.qexpf); additive
+            self.ops = dict(OPS[domain], exp=spec["q_exp"])
         self.src = Source(repo, spec["file"])
         self.fn = self.src.find(spec["qual"])
         self.where = "%s:%s" % (spec["file"], spec["qual"])
@@ -147,6 +150,7 @@ class FnTranslator:
         self.effects = spec.get("effects", [])
         self.has_effects = False
         self.depth = 0
+        self.ret_coq = None
 
     # -- helpers -----------------------------------------------------------------------------
     def err(self, node, why):
@@ -167,6 +171,23 @@ class FnTranslator:
         if key not in self.params:
             self.params[key] = (coq_ident(key.replace("self.", "self_")), ty or self.type_of_key(key))
         return self.params[key]
+
+    # -- integer-typed ("Z") sub-expressions inside a Q/R kernel (additive; C15) -----------------
+    def inj(self, a, t, node=None):
+        """coerce an expression of type Z to the carrier ('num')"""
+        if t == "num":
+            return a
+        if t == "Z":
+            if self.domain == "Q":
+                return "(inject_Z %s)" % a
+            if self.domain == "R":
+                return "(IZR %s)" % a
+            return a
+        self.err(node, "numeric expression expected, got %s" % t)
+
+    def paramable(self, k):
+        """names whose value before any assignment is a parameter of the generated function"""
+        return k.startswith("self.") or k in getattr(self, "argnames", ()) or k in self.types
 
     def newname(self, base):
         base = coq_ident(base.replace("self.", "self_"))
@@ -219,8 +240,18 @@ class FnTranslator:
             if key.startswith("self.") or key in self.types:
                 return self.param(key)
             self.err(node, "attribute %s" % key)
+        if isinstance(node, ast.Subscript):
+            # d["key"] / m[:, 0] reads: only when declared in `types` (become parameters) or bound
+            key = self.txt(node)
+            if key in env:
+                return env[key]
+            if key in self.types:
+                return self.param(key)
+            self.err(node, "subscript %s (declare it in types to make it a parameter)" % key)
         if isinstance(node, ast.UnaryOp):
             a, t = self.expr(node.operand, env)
+            if isinstance(node.op, ast.USub) and t == "Z" and self.domain != "Z":
+                return ("(- %s)%%Z" % a, "Z")
             if isinstance(node.op, ast.USub) and t == "num":
                 if isinstance(node.operand, ast.Constant):
                     seg = ast.get_source_segment(self.src.text, node.operand)
@@ -232,6 +263,13 @@ class FnTranslator:
         if isinstance(node, ast.BinOp):
             a, ta = self.expr(node.left, env)
             b, tb = self.expr(node.right, env)
+            if ta == "Z" and tb == "Z" and self.domain != "Z" and not isinstance(node.op, ast.Div):
+                zop = {ast.Add: "+", ast.Sub: "-", ast.Mult: "*"}.get(type(node.op))
+                if zop is None:
+                    self.err(node, "binary op %s on integers" % type(node.op).__name__)
+                return ("(%s %s %s)%%Z" % (a, zop, b), "Z")
+            if ta in ("num", "Z") and tb in ("num", "Z") and "Z" in (ta, tb) and self.domain != "Z":
+                a, b, ta, tb = self.inj(a, ta, node), self.inj(b, tb, node), "num", "num"
             if ta != "num" or tb != "num":
                 self.err(node, "arithmetic on non-number")
             if isinstance(node.op, ast.Add):
@@ -307,6 +345,17 @@ class FnTranslator:
                 continue
             a, ta = self.expr(left, env)
             b, tb = self.expr(right, env)
+            if ta == "Z" and tb == "Z" and self.domain != "Z":
+                zc = {ast.LtE: "(Z.leb %s %s)" % (a, b), ast.Lt: "(Z.ltb %s %s)" % (a, b),
+                      ast.GtE: "(Z.leb %s %s)" % (b, a), ast.Gt: "(Z.ltb %s %s)" % (b, a),
+                      ast.Eq: "(Z.eqb %s %s)" % (a, b), ast.NotEq: "(negb (Z.eqb %s %s))" % (a, b)}.get(type(op))
+                if zc is None:
+                    self.err(node, "comparison operator")
+                parts.append(zc)
+                left = right
+                continue
+            if ta in ("num", "Z") and tb in ("num", "Z") and "Z" in (ta, tb) and self.domain != "Z":
+                a, b, ta, tb = self.inj(a, ta, node), self.inj(b, tb, node), "num", "num"
             if ta != "num" or tb != "num":
                 self.err(node, "comparison of non-numbers: %s" % self.txt(node))
             if isinstance(op, ast.LtE):
@@ -354,7 +403,7 @@ class FnTranslator:
                     env2[self.txt(xnode)] = (inner, "num" if tx == "optnum" else "Z" if tx == "optZ" else "num")
                     # in Z-domain kernels 'num' is Z already
                     if tx == "optZ":
-                        env2[self.txt(xnode)] = (inner, "num")
+                        env2[self.txt(xnode)] = (inner, "num" if self.domain == "Z" else "Z")
                     rest = go(values[1:], env2)
                     return "(match %s with None => %s | Some %s => %s end)" % (
                         x, "true" if is_or else "false", inner, rest)
@@ -377,10 +426,24 @@ class FnTranslator:
             out = []
             for a in arglist:
                 s, t = self.expr(a, env)
+                if t == "Z" and self.domain != "Z":
+                    s, t = self.inj(s, t, node), "num"
                 if t != "num":
                     self.err(node, "non-numeric argument to %s" % f)
                 out.append(s)
             return out
+
+        # int(x) / math.ceil(x): carrier -> Z (Q kernels only; Python int() truncates toward zero)
+        if f in ("int", "math.ceil") and len(args) == 1 and not node.keywords and self.domain != "Z":
+            x, tx = self.expr(args[0], env)
+            if tx == "Z":
+                return (x, "Z")
+            if tx != "num" or self.domain != "Q":
+                self.err(node, "%s on %s in %s kernel" % (f, tx, self.domain))
+            return ("(%s %s)" % ("Qtrunc" if f == "int" else "Qceiling", x), "Z")
+        if f == "np.clip" and len(args) == 3 and not node.keywords:
+            x, lo, hi = nums(args)
+            return ("(%s (%s %s %s) %s)" % (o["min"], o["max"], x, lo, hi), "num")
 
         if f in ("min", "max", "np.minimum", "np.maximum"):
             fn = o["min"] if f in ("min", "np.minimum") else o["max"]
@@ -512,6 +575,9 @@ class FnTranslator:
             self.err(s, "expression statement %s" % self.txt(s)[:40])
         if isinstance(s, ast.Pass):
             return nxt(env)
+        if isinstance(s, ast.FunctionDef) and self.spec.get("skip_nested_defs"):
+            # nested helper; translated by its own anchor, calls to it must be call_params
+            return nxt(env)
         if isinstance(s, (ast.Assign, ast.AugAssign)):
             if isinstance(s, ast.Assign):
                 if len(s.targets) != 1:
@@ -556,15 +622,28 @@ class FnTranslator:
             c, tc = self.expr(s.test, env)
             if tc != "bool":
                 self.err(s, "non-boolean if test: %s" % self.txt(s.test))
+            # `if x is not None [and ...]:` — the body reads x unwrapped (the default branch of the
+            # generated match is unreachable under the test); additive, used by C15
+            env_body = env
+            first = s.test.values[0] if isinstance(s.test, ast.BoolOp) and isinstance(s.test.op, ast.And) else s.test
+            nt = self._none_test(first)
+            if nt is not None and not nt[1]:
+                xk = self.txt(nt[0])
+                xv, xt = self.expr(nt[0], env)
+                if xt in ("optnum", "optZ"):
+                    it = "num" if (xt == "optnum" or self.domain == "Z") else "Z"
+                    zero = "0%Z" if it == "Z" else self.ops["lit"](fractions.Fraction(0))
+                    env_body = dict(env)
+                    env_body[xk] = ("(match %s with Some v_ => v_ | None => %s end)" % (xv, zero), it)
             if self.has_exit(s.body) or self.has_exit(s.orelse):
-                a = self.block(s.body, env, nxt)
+                a = self.block(s.body, env_body, nxt)
                 b = self.block(s.orelse, env, nxt)
                 return "(if %s then\n%s\nelse\n%s)" % (c, a, b)
             W = self.assigned(s.body + s.orelse)
             # branch-local temporaries (assigned on one branch only, undefined before) are not
             # merged; a later use of one is an unbound name and fails closed
             Wb, We = self.assigned(s.body), self.assigned(s.orelse)
-            W = [k for k in W if k in env or k.startswith("self.") or (k in Wb and k in We)]
+            W = [k for k in W if k in env or self.paramable(k) or (k in Wb and k in We)]
             if self.has_effects and any(isinstance(n, ast.Call) and self.txt(n.func) in self.effects
                                         for st in s.body + s.orelse for n in ast.walk(st)):
                 W = W + ["$effects"]
@@ -579,7 +658,7 @@ class FnTranslator:
                 for k in W:
                     if k in e:
                         vals.append(e[k][0])
-                    elif k.startswith("self."):
+                    elif self.paramable(k):
                         vals.append(self.param(k)[0])
                     else:
                         self.err(s, "variable %s assigned on one branch only and not defined before" % k)
@@ -591,7 +670,7 @@ class FnTranslator:
                     if k in e:
                         types.setdefault(k, e[k][1])
                 return tup(e)
-            a = self.block(s.body, env, tup_t)
+            a = self.block(s.body, env_body, tup_t)
             b = self.block(s.orelse, env, tup_t)
             env2 = dict(env)
             names = []
@@ -624,8 +703,9 @@ class FnTranslator:
                 raise Untranslatable("%s: no default for %s" % (self.where, k))
             env[k] = self.expr(defaults[k], {})
         arg_params = [k for k in self.argnames if k not in inline_defaults]
-        for k in arg_params:
-            self.param(k)
+        if not spec.get("prune_params"):      # prune_params: only the arguments actually read become parameters
+            for k in arg_params:
+                self.param(k)
         if "expr_path" in spec:
             node = resolve_path(fn, spec["expr_path"], self.where)
             if not isinstance(node, ast.expr):
@@ -633,6 +713,34 @@ class FnTranslator:
             self.needs_record = False
             body, rt = self.expr(node, env)
             self.ret_type = rt
+        elif "stmt_range" in spec:
+            # a contiguous run of statements lst[i:j] (lst addressed by stmt_path, default the
+            # function body) as a function returning the tuple of the named `outputs`
+            lst = resolve_path(fn, spec.get("stmt_path", "body"), self.where)
+            i, j = spec["stmt_range"]
+            if not isinstance(lst, list) or not (0 <= i < j <= len(lst)):
+                raise Untranslatable("%s: stmt_range %s does not resolve" % (self.where, (i, j)))
+            stmts = lst[i:j]
+            if any(isinstance(n, (ast.Raise, ast.Return, ast.Continue, ast.Break)) for st in stmts for n in ast.walk(st)):
+                raise Untranslatable("%s: control transfer inside stmt_range" % self.where)
+            self.needs_record = False
+            outs = spec["outputs"]
+
+            def fin(e):
+                vals, tys = [], []
+                for k in outs:
+                    if k in e:
+                        v = e[k]
+                    elif self.paramable(k):
+                        v = self.param(k)
+                    else:
+                        raise Untranslatable("%s: output %s is not assigned in the range" % (self.where, k))
+                    vals.append(v[0])
+                    tys.append(self.coqty(v[1]))
+                self.ret_coq = tys[0] if len(tys) == 1 else "(" + " * ".join(tys) + ")"
+                return vals[0] if len(vals) == 1 else "(" + ", ".join(vals) + ")"
+            body = self.block(stmts, env, fin)
+            self.ret_type = "tuple"
         else:
             stmts = fn.body
             self.has_raise = any(isinstance(n, ast.Raise) for s in stmts for n in ast.walk(s))
@@ -657,7 +765,7 @@ class FnTranslator:
         binders = ["(%s : %s)" % (self.params[k][0], self.coqty(self.params[k][1])) for k in order]
         for key in sorted(self.extra, key=lambda k: self.extra[k][0]):
             binders.append("(%s : %s)" % (self.extra[key][0], self.coqty(self.extra[key][1])))
-        T = self.coqty(self.ret_type)
+        T = self.ret_coq if self.ret_type == "tuple" else self.coqty(self.ret_type)
         out = []
         if self.needs_record:
             rec = "%s_out" % self.name
@@ -680,7 +788,7 @@ class FnTranslator:
 
 
 HEADERS = {
-    "Q": "From Coq Require Import ZArith QArith Qminmax Qabs List Bool String.\n"
+    "Q": "From Coq Require Import ZArith QArith Qminmax Qabs Qround List Bool String.\n"
          "From ACN Require Import Base.Num.\nImport ListNotations.\nOpen Scope string_scope.\nOpen Scope Q_scope.\n",
     "R": "From Coq Require Import ZArith Reals List Bool String.\n"
          "From ACN Require Import Base.Num Base.NumR.\nImport ListNotations.\nOpen Scope string_scope.\nOpen Scope R_scope.\n",
@@ -699,7 +807,11 @@ def translate_group(repo, specs, domain):
             spec["file"], spec["qual"] + (" @ " + spec["expr_path"] if "expr_path" in spec else ""),
             info["line"], info["end_line"], text))
         infos.append(info)
-    return HEADERS[domain] + "\n" + "\n".join(texts), infos
+    extra = ""
+    if domain == "Q":
+        for r in sorted({sp["q_require"] for sp in specs if sp.get("q_require")}):
+            extra += "From ACN Require Import %s.\n" % r
+    return HEADERS[domain] + extra + "\n" + "\n".join(texts), infos
 
 
 # ---------------------------------------------------------------------------------------------
